@@ -616,6 +616,10 @@ class LoadRig:
 				self.module_path = module_path
 				self.path = module_path.path
 				self.entrypoint = _Entrypoint(module_path.path)
+				self.depends: list[Any] = []
+
+			def depends_on(self, modules: list[Any]) -> None:  # Module.depends_on (a383b4a); unused on older trees
+				self.depends = list(modules)
 
 		class FakeLoader(IModuleLoader):
 			def load(self, module_path: Any) -> Any:
